@@ -118,8 +118,10 @@ pub fn representable(xot: &Xot, node: Node) -> Option<String> {
                 for (p, ns) in xot.namespaces(n).iter() {
                     let ps = xot.prefix_str(p);
                     let us = xot.namespace_str(*ns);
-                    if !ps.is_empty() && (us.is_empty() || !ncname(ps) || ps == "xmlns" || ps == "xml") { return Some("declaration".into()); }
-                    if !us.chars().all(xml_char) || us == spell::XML_NS { return Some("declaration".into()); }
+                    // (the one legal declaration with the xml prefix or the xml namespace is xmlns:xml="http://www.w3.org/XML/1998/namespace")
+                    let xml_pair = ps == "xml" && us == spell::XML_NS;
+                    if !ps.is_empty() && (us.is_empty() || !ncname(ps) || ps == "xmlns" || (ps == "xml" && !xml_pair)) { return Some("declaration".into()); }
+                    if !us.chars().all(xml_char) || (us == spell::XML_NS && !xml_pair) { return Some("declaration".into()); }
                 }
                 let mut ids = vec![];
                 for (a, v) in xot.attributes(n).iter() {
